@@ -13,7 +13,7 @@ func init() {
 	register(&Driver{
 		ID:        "C03",
 		Technique: "exhaustive enumeration of dependency graphs x per-node substitution plans (early reference / before-init / after-init / both consistently / both inconsistently) x iteration orders, each a real start with a real SmartInstantiationAware post-processor; version-consistency oracle over every holder and the by-name lookup",
-		Rule:      "programs = labelled 3-node graphs over {none, by-name iface, []iface member} x wrap plan per node (6 plans) x base order; non-trivial = at least one wrapped node that some holder depends on; distinct = distinct (graph, plan, order)",
+		Rule:      "programs = labelled 3-node graphs over {none, by-name iface, []iface member} x wrap plan per node (6 plans) x base order; non-trivial = at least one wrapped node that some holder depends on; distinct = distinct (graph, plan, order). Families added in later rounds (look-ups inside Init, retries after an abandoned attempt, user extension points at every Order, several containers, odd names / types / values) are listed per part in this file and described in MANIFEST.json (level_claimed.text) and DESIGN §7",
 		Assumptions: []string{
 			"holders use interface-typed slots (a wrapper is not assignable to *T; that is a type error, not a version question)",
 			"substitution in PostProcessBeforeInstantiation is outside the family",
